@@ -4,7 +4,12 @@ Lemmas.ConstBounds — integer / real-analysis lemmas behind property C12 (the p
 * §1  the largest value a valid double-double can have (`valid_V_le`),
 * §2  the rounding cell of a double (`InCell`) and the notion "t is the correctly rounded double-double of the
       real number c" (`CorrectlyRoundedDD`), with the link to the model's rounding function `roundQ`,
-* §3  tools for turning polynomial sign conditions / series enclosures into cell membership.
+* §3  tools for turning polynomial sign conditions / series enclosures into cell membership
+      (`inCell_sqrt`, `inCell_of_enclosure`, `Encl` = rational enclosure of a real with interval arithmetic,
+      `inCell_of_encl`, `correctlyRounded_of_encl`), and the enclosures themselves, all *proved*:
+      `e` (Taylor sum, 41 terms, `Real.exp_bound`), `log 2`, `log (5/4)`, `log 10` (series
+      `Σ k^-(i+1)/(i+1)` with `Real.abs_log_sub_add_sum_range_le`), `π` to 136 bits (`pi_gt_136`, `pi_lt_136`,
+      Mathlib's `pi_lower_bound` / `pi_upper_bound` with 75 doublings), `√π`, and the derived quotients.
 -/
 import TFV.Spec.Defs
 import TFV.Spec.Rounding
@@ -14,6 +19,10 @@ import Mathlib.Tactic.Linarith
 import Mathlib.Tactic.NormNum
 import Mathlib.Tactic.Positivity
 import Mathlib.Analysis.Real.Sqrt
+import Mathlib.Analysis.Complex.Exponential
+import Mathlib.Analysis.SpecialFunctions.Log.Deriv
+import Mathlib.Analysis.SpecialFunctions.Log.Base
+import Mathlib.Analysis.Real.Pi.Bounds
 
 set_option exponentiation.threshold 3000
 
@@ -190,6 +199,45 @@ structure CorrectlyRoundedDD (c : ℝ) (t : TwoFloat) : Prop where
   hi : InCell (c * 2 ^ 1074) t.hi.toInt
   lo : InCell (c * 2 ^ 1074 - (t.hi.toInt : ℝ)) t.lo.toInt
 
+/-- **accuracy of a correctly rounded double-double**: `|c − (hi + lo)| ≤ 2^-107·|c|`, in scaled units.  The side
+condition (`2^107·ulp(lo) + ulp(hi) ≤ 2·hi`, a closed integer fact for each constant) says that the low word is
+at least 2^53 times smaller than the high word, as it is for every normal, non-truncated double-double. -/
+theorem CorrectlyRoundedDD.rel_err {c : ℝ} {t : TwoFloat} (h : CorrectlyRoundedDD c t)
+    (hchk : 2 ^ 107 * (ulp t.lo.toInt.natAbs : ℤ) + (ulp t.hi.toInt.natAbs : ℤ) ≤ 2 * t.hi.toInt) :
+    2 ^ 107 * |c * 2 ^ 1074 - (t.V : ℝ)| ≤ |c * 2 ^ 1074| := by
+  have h1 := h.hi.near
+  have h2 := h.lo.near
+  have hV : (t.V : ℝ) = (t.hi.toInt : ℝ) + (t.lo.toInt : ℝ) := by unfold TwoFloat.V; push_cast; ring
+  have hchk' : (2 : ℝ) ^ 107 * (ulp t.lo.toInt.natAbs : ℝ) + (ulp t.hi.toInt.natAbs : ℝ)
+      ≤ 2 * (t.hi.toInt : ℝ) := by exact_mod_cast hchk
+  rw [hV]
+  generalize c * 2 ^ 1074 = x at *
+  generalize (t.hi.toInt : ℝ) = H at *
+  generalize (t.lo.toInt : ℝ) = L at *
+  generalize (ulp t.hi.toInt.natAbs : ℝ) = u at *
+  generalize (ulp t.lo.toInt.natAbs : ℝ) = v at *
+  have hx : H - u / 2 < x := by have := (abs_lt.1 (show |x - H| < u / 2 by linarith)).1; linarith
+  have e : x - (H + L) = x - H - L := by ring
+  rw [e]
+  have h3 : (2 : ℝ) ^ 107 * |x - H - L| ≤ 2 ^ 107 * (v / 2) :=
+    mul_le_mul_of_nonneg_left (by linarith) (by positivity)
+  have : x ≤ |x| := le_abs_self x
+  linarith
+
+/-- the same in ordinary units -/
+theorem CorrectlyRoundedDD.rel_err' {c : ℝ} {t : TwoFloat} (h : CorrectlyRoundedDD c t)
+    (hchk : 2 ^ 107 * (ulp t.lo.toInt.natAbs : ℤ) + (ulp t.hi.toInt.natAbs : ℤ) ≤ 2 * t.hi.toInt) :
+    |c - (t.V : ℝ) / 2 ^ 1074| ≤ |c| / 2 ^ 107 := by
+  have h0 := h.rel_err hchk
+  have hU : (0 : ℝ) < 2 ^ 1074 := by positivity
+  have e1 : c * 2 ^ 1074 - (t.V : ℝ) = (c - (t.V : ℝ) / 2 ^ 1074) * 2 ^ 1074 := by field_simp
+  rw [e1, abs_mul, abs_mul, abs_of_pos hU] at h0
+  rw [le_div_iff₀ (by positivity)]
+  have : 2 ^ 107 * (|c - (t.V : ℝ) / 2 ^ 1074| * 2 ^ 1074) = (|c - (t.V : ℝ) / 2 ^ 1074| * 2 ^ 107) * 2 ^ 1074 := by
+    ring
+  rw [this] at h0
+  exact le_of_mul_le_mul_right h0 hU
+
 /-! ## 3. from enclosures to cells -/
 
 /-- cell membership from two-sided bounds on `x + A` (used with `A = hi` for the low word) -/
@@ -217,5 +265,523 @@ theorem two_sqrt_bounds {N : ℕ} {a b : ℤ} (ha : 0 ≤ a) (hb : 0 ≤ b) (h1 
   constructor
   · rw [Real.lt_sqrt (by exact_mod_cast ha)]; exact_mod_cast h1
   · rw [Real.sqrt_lt (by positivity) (by exact_mod_cast hb)]; exact_mod_cast h2
+
+/-- cell membership for a square root: `√N − A` lies in the cell of `L` when `4N` lies strictly between the
+squares of the doubled cell end points `2(A+L) ∓ u` -/
+theorem inCell_sqrt {N : ℕ} {A L : ℤ} {u : ℕ} (hp : L.natAbs ≠ 2 ^ Nat.log2 L.natAbs)
+    (hu : ulp L.natAbs = u) (h0 : 0 ≤ 2 * (A + L) - (u : ℤ))
+    (h1 : (2 * (A + L) - (u : ℤ)) ^ 2 < 4 * (N : ℤ)) (h2 : 4 * (N : ℤ) < (2 * (A + L) + (u : ℤ)) ^ 2) :
+    InCell (√(N : ℝ) - (A : ℝ)) L := by
+  have hb := two_sqrt_bounds h0 (by omega) h1 h2
+  exact inCell_of_bounds hp hu hb.1 hb.2
+
+theorem sqrt_two_scaled : √2 * 2 ^ 1074 = √((2 ^ 2149 : ℕ) : ℝ) := by
+  rw [show (((2 : ℕ) ^ 2149 : ℕ) : ℝ) = 2 * (2 ^ 1074) ^ 2 by norm_num,
+    Real.sqrt_mul (by norm_num), Real.sqrt_sq (by positivity)]
+
+theorem inv_sqrt_two_scaled : 1 / √2 * 2 ^ 1074 = √((2 ^ 2147 : ℕ) : ℝ) := by
+  rw [show (((2 : ℕ) ^ 2147 : ℕ) : ℝ) = (2 ^ 1074) ^ 2 / 2 by norm_num,
+    Real.sqrt_div (by positivity), Real.sqrt_sq (by positivity)]
+  ring
+
+/-- cell membership from a rational enclosure `n₁/d₁ ≤ c ≤ n₂/d₂`: it suffices that the enclosure, scaled by
+`2^1074`, lies strictly inside the cell — two inequalities between explicit integers -/
+theorem inCell_of_enclosure {c : ℝ} {A L : ℤ} {u : ℕ} {n₁ n₂ : ℤ} {d₁ d₂ : ℕ}
+    (hp : L.natAbs ≠ 2 ^ Nat.log2 L.natAbs) (hu : ulp L.natAbs = u)
+    (hd₁ : 0 < d₁) (hd₂ : 0 < d₂)
+    (h₁ : (n₁ : ℝ) / (d₁ : ℝ) ≤ c) (h₂ : c ≤ (n₂ : ℝ) / (d₂ : ℝ))
+    (c₁ : (2 * (A + L) - (u : ℤ)) * (d₁ : ℤ) < 2 * (n₁ * 2 ^ 1074))
+    (c₂ : 2 * (n₂ * 2 ^ 1074) < (2 * (A + L) + (u : ℤ)) * (d₂ : ℤ)) :
+    InCell (c * 2 ^ 1074 - (A : ℝ)) L := by
+  have hd₁' : (0 : ℝ) < (d₁ : ℝ) := by exact_mod_cast hd₁
+  have hd₂' : (0 : ℝ) < (d₂ : ℝ) := by exact_mod_cast hd₂
+  have c₁' : ((2 * (A + L) - (u : ℤ) : ℤ) : ℝ) * (d₁ : ℝ) < 2 * ((n₁ : ℝ) * 2 ^ 1074) := by exact_mod_cast c₁
+  have c₂' : 2 * ((n₂ : ℝ) * 2 ^ 1074) < ((2 * (A + L) + (u : ℤ) : ℤ) : ℝ) * (d₂ : ℝ) := by exact_mod_cast c₂
+  rw [div_le_iff₀ hd₁'] at h₁
+  rw [le_div_iff₀ hd₂'] at h₂
+  apply inCell_of_bounds hp hu
+  · generalize ((2 * (A + L) - (u : ℤ) : ℤ) : ℝ) = a at c₁' ⊢
+    have h : a * (d₁ : ℝ) < (2 * (c * 2 ^ 1074)) * (d₁ : ℝ) := by nlinarith
+    exact lt_of_mul_lt_mul_right h hd₁'.le
+  · generalize ((2 * (A + L) + (u : ℤ) : ℤ) : ℝ) = b at c₂' ⊢
+    have h : (2 * (c * 2 ^ 1074)) * (d₂ : ℝ) < b * (d₂ : ℝ) := by nlinarith
+    exact lt_of_mul_lt_mul_right h hd₂'.le
+
+theorem inCell_of_enclosure₀ {c : ℝ} {L : ℤ} {u : ℕ} {n₁ n₂ : ℤ} {d₁ d₂ : ℕ}
+    (hp : L.natAbs ≠ 2 ^ Nat.log2 L.natAbs) (hu : ulp L.natAbs = u)
+    (hd₁ : 0 < d₁) (hd₂ : 0 < d₂)
+    (h₁ : (n₁ : ℝ) / (d₁ : ℝ) ≤ c) (h₂ : c ≤ (n₂ : ℝ) / (d₂ : ℝ))
+    (c₁ : (2 * (0 + L) - (u : ℤ)) * (d₁ : ℤ) < 2 * (n₁ * 2 ^ 1074))
+    (c₂ : 2 * (n₂ * 2 ^ 1074) < (2 * (0 + L) + (u : ℤ)) * (d₂ : ℤ)) :
+    InCell (c * 2 ^ 1074) L := by
+  have := inCell_of_enclosure (A := 0) hp hu hd₁ hd₂ h₁ h₂ c₁ c₂
+  simpa using this
+
+/-! ### `e` -/
+
+/-- `expNum (n+1) = Σ_{m ≤ n} n!/m!`, by the recurrence `a₀ = 0`, `aₙ₊₁ = n·aₙ + 1` -/
+def expNum : ℕ → ℕ
+  | 0 => 0
+  | n + 1 => expNum n * n + 1
+
+theorem sum_inv_factorial (n : ℕ) :
+    ∑ m ∈ Finset.range (n + 1), (1 : ℝ) ^ m / (m.factorial : ℝ) = (expNum (n + 1) : ℝ) / (n.factorial : ℝ) := by
+  induction n with
+  | zero => simp [expNum]
+  | succ n ih =>
+    rw [Finset.sum_range_succ, ih]
+    have h1 : ((n + 1).factorial : ℝ) = ((n : ℝ) + 1) * (n.factorial : ℝ) := by
+      rw [Nat.factorial_succ]; push_cast; ring
+    have h2 : (expNum (n + 1 + 1) : ℝ) = (expNum (n + 1) : ℝ) * ((n : ℝ) + 1) + 1 := by
+      rw [show expNum (n + 1 + 1) = expNum (n + 1) * (n + 1) + 1 from rfl]; push_cast; ring
+    have hf : (0 : ℝ) < (n.factorial : ℝ) := by exact_mod_cast n.factorial_pos
+    rw [h1, h2, one_pow]
+    field_simp
+
+/-- `e` to about 159 bits: the Taylor sum of 41 terms, with the remainder bound `Real.exp_bound` -/
+theorem exp_one_enclosure :
+    ((expNum 41 * 1681 - 42 : ℤ) : ℝ) / ((Nat.factorial 40 * 1681 : ℕ) : ℝ) ≤ Real.exp 1 ∧
+    Real.exp 1 ≤ ((expNum 41 * 1681 + 42 : ℤ) : ℝ) / ((Nat.factorial 40 * 1681 : ℕ) : ℝ) := by
+  have hb := Real.exp_bound (x := 1) (by norm_num) (n := 41) (by norm_num)
+  rw [sum_inv_factorial 40, abs_one, one_pow, one_mul] at hb
+  have h41 : ((Nat.factorial 41 : ℕ) : ℝ) = 41 * (Nat.factorial 40 : ℝ) := by
+    rw [Nat.factorial_succ]; push_cast; ring
+  have hf : (0 : ℝ) < (Nat.factorial 40 : ℝ) := by exact_mod_cast (Nat.factorial_pos 40)
+  rw [h41] at hb
+  have hs : ((Nat.succ 41 : ℕ) : ℝ) = 42 := by norm_num
+  rw [hs] at hb
+  obtain ⟨h1, h2⟩ := abs_le.1 hb
+  push_cast
+  generalize (Nat.factorial 40 : ℝ) = F at *
+  generalize (expNum 41 : ℝ) = E at *
+  have e1 : (E * 1681 - 42) / (F * 1681) = E / F - 42 / (41 * F * 41) := by field_simp; ring
+  have e2 : (E * 1681 + 42) / (F * 1681) = E / F + 42 / (41 * F * 41) := by field_simp; ring
+  rw [e1, e2]
+  constructor <;> linarith
+
+/-! ### logarithms: `log (k/(k−1)) = Σ_{i ≥ 0} k^-(i+1)/(i+1)` -/
+
+/-- numerator of the partial sum `Σ_{i<n} k^-(i+1)/(i+1) = logNum k n / (n!·k^n)` -/
+def logNum (k : ℕ) : ℕ → ℕ
+  | 0 => 0
+  | n + 1 => logNum k n * (k * (n + 1)) + n.factorial
+
+theorem sum_log_series (k : ℕ) (hk : 0 < k) (n : ℕ) :
+    ∑ i ∈ Finset.range n, ((k : ℝ)⁻¹) ^ (i + 1) / ((i : ℝ) + 1)
+      = (logNum k n : ℝ) / ((n.factorial : ℝ) * (k : ℝ) ^ n) := by
+  have hk' : (0 : ℝ) < (k : ℝ) := by exact_mod_cast hk
+  induction n with
+  | zero => simp [logNum]
+  | succ n ih =>
+    rw [Finset.sum_range_succ, ih]
+    have h1 : ((n + 1).factorial : ℝ) = ((n : ℝ) + 1) * (n.factorial : ℝ) := by
+      rw [Nat.factorial_succ]; push_cast; ring
+    have h2 : (logNum k (n + 1) : ℝ) = (logNum k n : ℝ) * ((k : ℝ) * ((n : ℝ) + 1)) + (n.factorial : ℝ) := by
+      rw [show logNum k (n + 1) = logNum k n * (k * (n + 1)) + n.factorial from rfl]; push_cast; ring
+    have hf : (0 : ℝ) < (n.factorial : ℝ) := by exact_mod_cast n.factorial_pos
+    have hn : (0 : ℝ) < (n : ℝ) + 1 := by positivity
+    rw [h1, h2, inv_pow, pow_succ]
+    field_simp
+
+/-- enclosure of `log ((j+1)/j)` by the `n`-term partial sum of the series in `1/(j+1)`, with Mathlib's
+remainder bound `Real.abs_log_sub_add_sum_range_le`: error at most `1/((j+1)^n·j)` -/
+theorem log_enclosure (j n : ℕ) (hj : 0 < j) :
+    ((logNum (j + 1) n * j - n.factorial : ℤ) : ℝ) / ((n.factorial * (j + 1) ^ n * j : ℕ) : ℝ)
+        ≤ Real.log (((j + 1 : ℕ) : ℝ) / (j : ℝ)) ∧
+      Real.log (((j + 1 : ℕ) : ℝ) / (j : ℝ))
+        ≤ ((logNum (j + 1) n * j + n.factorial : ℤ) : ℝ) / ((n.factorial * (j + 1) ^ n * j : ℕ) : ℝ) := by
+  have hj' : (0 : ℝ) < (j : ℝ) := by exact_mod_cast hj
+  have hk' : (0 : ℝ) < ((j + 1 : ℕ) : ℝ) := by positivity
+  have hx : |(((j + 1 : ℕ) : ℝ))⁻¹| < 1 := by
+    rw [abs_of_pos (inv_pos.2 hk')]
+    apply inv_lt_one_of_one_lt₀
+    push_cast; linarith
+  have hb := Real.abs_log_sub_add_sum_range_le hx n
+  rw [sum_log_series (j + 1) (by omega) n, abs_of_pos (inv_pos.2 hk')] at hb
+  have e1 : (1 : ℝ) - (((j + 1 : ℕ) : ℝ))⁻¹ = ((((j + 1 : ℕ) : ℝ)) / (j : ℝ))⁻¹ := by
+    push_cast; field_simp; ring
+  rw [e1, Real.log_inv] at hb
+  have e2 : ((((j + 1 : ℕ) : ℝ)) / (j : ℝ))⁻¹ = (j : ℝ) / ((j + 1 : ℕ) : ℝ) := inv_div _ _
+  have e3 : ((((j + 1 : ℕ) : ℝ))⁻¹) ^ (n + 1) / ((j : ℝ) / ((j + 1 : ℕ) : ℝ))
+      = 1 / (((j + 1 : ℕ) : ℝ) ^ n * (j : ℝ)) := by
+    rw [inv_pow, pow_succ]; field_simp
+  rw [e2, e3] at hb
+  obtain ⟨h1, h2⟩ := abs_le.1 hb
+  have hf : (0 : ℝ) < (n.factorial : ℝ) := by exact_mod_cast n.factorial_pos
+  have hK : (0 : ℝ) < ((j + 1 : ℕ) : ℝ) ^ n := by positivity
+  push_cast at h1 h2 ⊢
+  generalize Real.log (((j : ℝ) + 1) / (j : ℝ)) = lg at *
+  generalize (n.factorial : ℝ) = F at *
+  generalize ((j : ℝ) + 1) ^ n = K at *
+  generalize (logNum (j + 1) n : ℝ) = N at *
+  generalize (j : ℝ) = J at *
+  have e4 : (N * J - F) / (F * K * J) = N / (F * K) - 1 / (K * J) := by field_simp
+  have e5 : (N * J + F) / (F * K * J) = N / (F * K) + 1 / (K * J) := by field_simp
+  rw [e4, e5]
+  constructor <;> linarith
+
+/-- `log_enclosure` with the base `k = j + 1` as a separate variable (so that literals stay literals) -/
+theorem log_enclosure' (k j n : ℕ) (hj : 0 < j) (hk : k = j + 1) :
+    ((logNum k n * j - n.factorial : ℤ) : ℝ) / ((n.factorial * k ^ n * j : ℕ) : ℝ)
+        ≤ Real.log ((k : ℝ) / (j : ℝ)) ∧
+      Real.log ((k : ℝ) / (j : ℝ))
+        ≤ ((logNum k n * j + n.factorial : ℤ) : ℝ) / ((n.factorial * k ^ n * j : ℕ) : ℝ) := by
+  subst hk; exact log_enclosure j n hj
+
+/-! ### rational enclosures and their arithmetic -/
+
+/-- `Encl c a b`: the rational interval `[a, b]` contains the real number `c` -/
+def Encl (c : ℝ) (a b : ℚ) : Prop := (a : ℝ) ≤ c ∧ c ≤ (b : ℝ)
+
+theorem Encl.of_int_div {c : ℝ} {n₁ n₂ : ℤ} {d₁ d₂ : ℕ}
+    (h : (n₁ : ℝ) / (d₁ : ℝ) ≤ c ∧ c ≤ (n₂ : ℝ) / (d₂ : ℝ)) :
+    Encl c ((n₁ : ℚ) / (d₁ : ℚ)) ((n₂ : ℚ) / (d₂ : ℚ)) := by
+  unfold Encl; push_cast; exact h
+
+theorem Encl.add {x y : ℝ} {a b a' b' : ℚ} (hx : Encl x a b) (hy : Encl y a' b') :
+    Encl (x + y) (a + a') (b + b') := by
+  unfold Encl at *; push_cast; constructor <;> linarith [hx.1, hx.2, hy.1, hy.2]
+
+theorem Encl.smul {x : ℝ} {a b : ℚ} (k : ℚ) (hk : 0 ≤ k) (hx : Encl x a b) :
+    Encl ((k : ℝ) * x) (k * a) (k * b) := by
+  have hk' : (0 : ℝ) ≤ (k : ℝ) := by exact_mod_cast hk
+  unfold Encl at *; push_cast
+  exact ⟨mul_le_mul_of_nonneg_left hx.1 hk', mul_le_mul_of_nonneg_left hx.2 hk'⟩
+
+theorem Encl.pos {x : ℝ} {a b : ℚ} (hx : Encl x a b) (ha : 0 < a) : 0 < x :=
+  lt_of_lt_of_le (by exact_mod_cast ha) hx.1
+
+theorem Encl.inv {x : ℝ} {a b : ℚ} (hx : Encl x a b) (ha : 0 < a) : Encl x⁻¹ b⁻¹ a⁻¹ := by
+  have ha' : (0 : ℝ) < (a : ℝ) := by exact_mod_cast ha
+  have hx0 := hx.pos ha
+  unfold Encl at *; push_cast
+  exact ⟨inv_anti₀ hx0 hx.2, inv_anti₀ ha' hx.1⟩
+
+theorem Encl.mul {x y : ℝ} {a b a' b' : ℚ} (hx : Encl x a b) (hy : Encl y a' b') (ha : 0 ≤ a)
+    (ha' : 0 ≤ a') : Encl (x * y) (a * a') (b * b') := by
+  have h1 : (0 : ℝ) ≤ (a : ℝ) := by exact_mod_cast ha
+  have h2 : (0 : ℝ) ≤ (a' : ℝ) := by exact_mod_cast ha'
+  unfold Encl at *; push_cast
+  exact ⟨mul_le_mul hx.1 hy.1 h2 (le_trans h1 hx.1),
+    mul_le_mul hx.2 hy.2 (le_trans h2 hy.1) (le_trans (le_trans h1 hx.1) hx.2)⟩
+
+theorem Encl.div {x y : ℝ} {a b a' b' : ℚ} (hx : Encl x a b) (hy : Encl y a' b') (ha : 0 ≤ a)
+    (ha' : 0 < a') : Encl (x / y) (a / b') (b / a') := by
+  have hb' : 0 < b' := by
+    have : (a' : ℝ) ≤ (b' : ℝ) := le_trans hy.1 hy.2
+    exact lt_of_lt_of_le ha' (by exact_mod_cast this)
+  have := hx.mul (hy.inv ha') ha (le_of_lt (inv_pos.2 hb'))
+  rwa [← div_eq_mul_inv, ← div_eq_mul_inv, ← div_eq_mul_inv] at this
+
+theorem Encl.congr {x y : ℝ} {a b : ℚ} (hx : Encl x a b) (h : x = y) : Encl y a b := h ▸ hx
+
+/-- cell membership from a rational enclosure: it suffices that the enclosure, scaled by `2^1074`, lies
+strictly inside the cell — two inequalities between explicit rationals -/
+theorem inCell_of_encl {c : ℝ} {A L : ℤ} {u : ℕ} {a b : ℚ} (hc : Encl c a b)
+    (hp : L.natAbs ≠ 2 ^ Nat.log2 L.natAbs) (hu : ulp L.natAbs = u)
+    (c₁ : ((2 * (A + L) - (u : ℤ) : ℤ) : ℚ) < 2 * (a * 2 ^ 1074))
+    (c₂ : 2 * (b * 2 ^ 1074) < ((2 * (A + L) + (u : ℤ) : ℤ) : ℚ)) :
+    InCell (c * 2 ^ 1074 - (A : ℝ)) L := by
+  have c₁' := (Rat.cast_lt (K := ℝ)).2 c₁
+  have c₂' := (Rat.cast_lt (K := ℝ)).2 c₂
+  simp only [Rat.cast_intCast, Rat.cast_mul, Rat.cast_pow, Rat.cast_ofNat] at c₁' c₂'
+  have hU : (0 : ℝ) < 2 ^ 1074 := by positivity
+  apply inCell_of_bounds hp hu
+  · refine lt_of_lt_of_le c₁' ?_
+    have := mul_le_mul_of_nonneg_right hc.1 hU.le
+    linarith
+  · refine lt_of_le_of_lt ?_ c₂'
+    have := mul_le_mul_of_nonneg_right hc.2 hU.le
+    linarith
+
+theorem inCell_of_encl₀ {c : ℝ} {L : ℤ} {u : ℕ} {a b : ℚ} (hc : Encl c a b)
+    (hp : L.natAbs ≠ 2 ^ Nat.log2 L.natAbs) (hu : ulp L.natAbs = u)
+    (c₁ : ((2 * (0 + L) - (u : ℤ) : ℤ) : ℚ) < 2 * (a * 2 ^ 1074))
+    (c₂ : 2 * (b * 2 ^ 1074) < ((2 * (0 + L) + (u : ℤ) : ℤ) : ℚ)) :
+    InCell (c * 2 ^ 1074) L := by
+  have := inCell_of_encl (A := 0) hc hp hu c₁ c₂
+  simpa using this
+
+/-- both cells at once -/
+theorem correctlyRounded_of_encl {c : ℝ} {t : TwoFloat} {u v : ℕ} {a b : ℚ} (hc : Encl c a b)
+    (hp : t.hi.toInt.natAbs ≠ 2 ^ Nat.log2 t.hi.toInt.natAbs) (hu : ulp t.hi.toInt.natAbs = u)
+    (hq : t.lo.toInt.natAbs ≠ 2 ^ Nat.log2 t.lo.toInt.natAbs) (hv : ulp t.lo.toInt.natAbs = v)
+    (c₁ : ((2 * (0 + t.hi.toInt) - (u : ℤ) : ℤ) : ℚ) < 2 * (a * 2 ^ 1074))
+    (c₂ : 2 * (b * 2 ^ 1074) < ((2 * (0 + t.hi.toInt) + (u : ℤ) : ℤ) : ℚ))
+    (c₃ : ((2 * (t.hi.toInt + t.lo.toInt) - (v : ℤ) : ℤ) : ℚ) < 2 * (a * 2 ^ 1074))
+    (c₄ : 2 * (b * 2 ^ 1074) < ((2 * (t.hi.toInt + t.lo.toInt) + (v : ℤ) : ℤ) : ℚ)) :
+    CorrectlyRoundedDD c t :=
+  ⟨inCell_of_encl₀ hc hp hu c₁ c₂, inCell_of_encl hc hq hv c₃ c₄⟩
+
+/-- `log 2` to 200 bits -/
+def ln2Lo : ℚ := ((logNum 2 200 * 1 - Nat.factorial 200 : ℤ) : ℚ) / ((Nat.factorial 200 * 2 ^ 200 * 1 : ℕ) : ℚ)
+def ln2Hi : ℚ := ((logNum 2 200 * 1 + Nat.factorial 200 : ℤ) : ℚ) / ((Nat.factorial 200 * 2 ^ 200 * 1 : ℕ) : ℚ)
+
+theorem log_two_encl : Encl (Real.log 2) ln2Lo ln2Hi := by
+  have h := log_enclosure' 2 1 200 Nat.one_pos rfl
+  rw [show (((2 : ℕ) : ℝ) / ((1 : ℕ) : ℝ)) = 2 by norm_num] at h
+  exact Encl.of_int_div h
+
+/-- `log (5/4)` to 208 bits -/
+def ln54Lo : ℚ := ((logNum 5 90 * 4 - Nat.factorial 90 : ℤ) : ℚ) / ((Nat.factorial 90 * 5 ^ 90 * 4 : ℕ) : ℚ)
+def ln54Hi : ℚ := ((logNum 5 90 * 4 + Nat.factorial 90 : ℤ) : ℚ) / ((Nat.factorial 90 * 5 ^ 90 * 4 : ℕ) : ℚ)
+
+theorem log_five_quarters_encl : Encl (Real.log (5 / 4)) ln54Lo ln54Hi := by
+  have h := log_enclosure' 5 4 90 (by norm_num) rfl
+  rw [show (((5 : ℕ) : ℝ) / ((4 : ℕ) : ℝ)) = 5 / 4 by norm_num] at h
+  exact Encl.of_int_div h
+
+theorem log_ten_eq : Real.log 10 = ((3 : ℚ) : ℝ) * Real.log 2 + Real.log (5 / 4) := by
+  have : (10 : ℝ) = 2 ^ 3 * (5 / 4) := by norm_num
+  rw [this, Real.log_mul (by norm_num) (by norm_num), Real.log_pow]
+  push_cast; ring
+
+def ln10Lo : ℚ := 3 * ln2Lo + ln54Lo
+def ln10Hi : ℚ := 3 * ln2Hi + ln54Hi
+
+/-- `log 10 = 3·log 2 + log (5/4)` -/
+theorem log_ten_encl : Encl (Real.log 10) ln10Lo ln10Hi :=
+  ((log_two_encl.smul 3 (by norm_num)).add log_five_quarters_encl).congr log_ten_eq.symm
+
+theorem ln2Lo_pos : 0 < ln2Lo := by decide +kernel
+theorem ln10Lo_pos : 0 < ln10Lo := by decide +kernel
+
+/-- `log₂ e = 1 / log 2` -/
+theorem log2_e_encl : Encl (Real.logb 2 (Real.exp 1)) ln2Hi⁻¹ ln2Lo⁻¹ :=
+  (log_two_encl.inv ln2Lo_pos).congr (by simp [Real.logb])
+
+/-- `log₁₀ e = 1 / log 10` -/
+theorem log10_e_encl : Encl (Real.logb 10 (Real.exp 1)) ln10Hi⁻¹ ln10Lo⁻¹ :=
+  (log_ten_encl.inv ln10Lo_pos).congr (by simp [Real.logb])
+
+/-- `log₁₀ 2 = log 2 / log 10` -/
+theorem log10_2_encl : Encl (Real.logb 10 2) (ln2Lo / ln10Hi) (ln2Hi / ln10Lo) :=
+  log_two_encl.div log_ten_encl ln2Lo_pos.le ln10Lo_pos
+
+/-- `log₂ 10 = log 10 / log 2` -/
+theorem log2_10_encl : Encl (Real.logb 2 10) (ln10Lo / ln2Hi) (ln10Hi / ln2Lo) :=
+  log_ten_encl.div log_two_encl ln10Lo_pos.le ln2Lo_pos
+
+/-! ### `π`: Mathlib's `sqrtTwoAddSeries` bounds (`Real.pi_gt_sqrtTwoAddSeries`, `Real.pi_lt_sqrtTwoAddSeries`:
+Archimedes' polygons, `π ≈ 2^(n+1)·√(2 − 2cos(π/2^(n+1)))`) with 75 doublings and machine-generated rational
+witnesses for the nested square roots, checked by `norm_num` — the method of `Real.pi_gt_d20`, pushed to 136 bits -/
+
+theorem pi_gt_136 : (273671317520631487452078175529438920524963 : ℝ) / 2 ^ 136 < Real.pi := by
+  pi_lower_bound [
+    1058240223715249875626367471623070219522150574575935/748288838313422294120286634350736906063837462003712,
+    5530629936995347449587304106829482088507891327714123/2993155353253689176481146537402947624255349848014848,
+    23485141699450798619079619636139456675711549851465661/11972621413014756705924586149611790497021399392059392,
+    190639519495372517125744021139692456352320330878414335/95780971304118053647396689196894323976171195136475136,
+    1530649582871537874073517095695246051796917832324122971/766247770432944429179173513575154591809369561091801088,
+    6128135927443318604318534250459572153983892605810576215/3064991081731777716716694054300618367237478244367204352,
+    24518082348322279438361250363662432756257151042675193421/12259964326927110866866776217202473468949912977468817408,
+    98077868292506691133825997292494505590719623420336280185/49039857307708443467467104868809893875799651909875269632,
+    392317012134412768115779922509621497286269493466967099899/196159429230833773869868419475239575503198607639501078528,
+    49039799609947789503167936251705070614544012090013226111/24519928653854221733733552434404946937899825954937634816,
+    6277099889058068300089942835818948477163147004935705252335/3138550867693340381917894711603833208051177722232017256448,
+    1569275318451127669210640686857329922369586854867828443625/784637716923335095479473677900958302012794430558004314112,
+    100433625919858194902342647050651808208991073122275330970261/50216813883093446110686315385661331328818843555712276103168,
+    401734509218418867323696250610941083890158114603538578771075/200867255532373784442745261542645325315275374222849104412672,
+    803469021206330786459738373229843885235200389607940806544099/401734511064747568885490523085290650630550748445698208825344,
+    1606938043797408099820047563763806290614381226656170612683435/803469022129495137770981046170581301261101496891396417650688,
+    12855504353148757852858721085518714110062546702027769096052171/6427752177035961102167848369364650410088811975131171341205504,
+    51422017415364524465857524652692499281248554233352929715691349/25711008708143844408671393477458601640355247900524685364822016,
+    411376139328455181835767627710381141006115150189110829915962085/205688069665150755269371147819668813122841983204197482918576128,
+    1645504557319359713451993478797267249270757597332628682954006335/822752278660603021077484591278675252491367932816789931674304512,
+    822752278660372229989612595938942133941027789692154659424659169/411376139330301510538742295639337626245683966408394965837152256,
+    26328072917137450345776530893460297708143826953861430030039573987/13164036458569648337239753460458804039861886925068638906788872192,
+    105312291668555340369215051640028260591520558314447026254685655613/52656145834278593348959013841835216159447547700274555627155488768,
+    210624583337113450231484567343496671104628589617068695800001519505/105312291668557186697918027683670432318895095400549111254310977536,
+    52656145834278535651187045840313343006289411144119725280554016855/26328072917139296674479506920917608079723773850137277813577744384,
+    3369993333393829051169025397852977419524770721955844638771526857223/1684996666696914987166688442938726917102321526408785780068975640576,
+    13479973333575318974169156055485307311081364343915582054223208601105/6739986666787659948666753771754907668409286105635143120275902562304,
+    53919893334301278666169678686014745418772747093603061156137645207453/26959946667150639794667015087019630673637144422540572481103610249216,
+    431359146674410234868343538416265054969809060315631285362710569553937/215679573337205118357336120696157045389097155380324579848828881993728,
+    215679573337205118126545032824150915789568306357757917089740406674897/107839786668602559178668060348078522694548577690162289924414440996864,
+    3450873173395281892794213579650488207703958397277987198044655053448613/1725436586697640946858688965569256363112777243042596638790631055949824,
+    27606985387162255147892694746132052772699503364708664347322627064562125/13803492693581127574869511724554050904902217944340773110325048447598592,
+    110427941548649020597109765093456358202097375944163685580709095750773859/55213970774324510299478046898216203619608871777363092441300193790394368,
+    55213970774324510299247255810344197489968343479586854483921160857982619/27606985387162255149739023449108101809804435888681546220650096895197184,
+    1766847064778384329581451172039942466790358705800497203373288693917916371/883423532389192164791648750371459257913741948437809479060803100646309888,
+    441711766194596082395708979641793625892050634703382882185361624172119859/220855883097298041197912187592864814478435487109452369765200775161577472,
+    28269553036454149273330913683183720204202616857468246621731980074500952717/14134776518227074636666380005943348126619871175004951664972849610340958208,
+    113078212145816597093329193718843808963921843892424629863895807654605355265/56539106072908298546665520023773392506479484700019806659891398441363832832,
+    56539106072908298546665289232685520500349844011096892267040735097787875025/28269553036454149273332760011886696253239742350009903329945699220681916416,
+    1809251394333065553493294794432045584158306384888308415051989863994913649193/904625697166532776746648320380374280103671755200316906558262375061821325312,
+    7237005577332262213973184716714291264780336916089974333671131719520811266261/3618502788666131106986593281521497120414687020801267626233049500247285301248,
+    28948022309329048855892744405843273987268459040897521210886820622293265490045/14474011154664524427946373126085988481658748083205070504932198000989141204992,
+    115792089237316195423570983162359204877220947540127929520434356603550298324071/57896044618658097711785492504343953926634992332820282019728792003956564819968,
+    231584178474632390847141969094211464218515450768524808979397847810560116822449/115792089237316195423570985008687907853269984665640564039457584007913129639936,
+    1852673427797059126777135758292677822676270717524736385512283850464535425924385/926336713898529563388567880069503262826159877325124512315660672063305037119488,
+    7410693711188236507108543038709697399633229981475483459176247169531480057791377/3705346855594118253554271520278013051304639509300498049262642688253220148477952,
+    29642774844752946028434172160377775707461067037278471754694603120722579550946605/14821387422376473014217086081112052205218558037201992197050570753012880593911808,
+    29642774844752946028434172161762522234693103815122606234245913148554451941247333/14821387422376473014217086081112052205218558037201992197050570753012880593911808,
+    237142198758023568227473377296869670932008904076669118833096878452690714090757847/118571099379011784113736688648896417641748464297615937576404566024103044751294464,
+    1897137590064188545819787018380496353564999379724729488583047650754331586737710005/948568795032094272909893509191171341133987714380927500611236528192824358010355712,
+    7588550360256754183279148073527524400368925666010294492250466595301206140185009463/3794275180128377091639574036764685364535950857523710002444946112771297432041422848,
+    3794275180128377091639574036764454573448078851394069313365017901972059104222479731/1897137590064188545819787018382342682267975428761855001222473056385648716020711424,
+    121416805764108066932466369176468085336447451391721594565598849908249481728110559025/60708402882054033466233184588234965832575213720379360039119137804340758912662765568,
+    60708402882054033466233184588234735041487341714249719350039209591348062854427661955/30354201441027016733116592294117482916287606860189680019559568902170379456331382784,
+    971334446112864535459730953411758530156851931501551197869586492017042666823580602537/485667223056432267729865476705879726660601709763034880312953102434726071301302124544,
+    7770675568902916283677847627294073780240924380159520959494610213250578843489745083553/3885337784451458141838923813647037813284813678104279042503624819477808570410416996352,
+    31082702275611665134711390509176300659949806448785195214516359130117375429508986657653/15541351137805832567355695254588151253139254712417116170014499277911234281641667985408,
+    62165404551223330269422781018352604089392667361643946117301677398792383705124089734549/31082702275611665134711390509176302506278509424834232340028998555822468563283335970816,
+    62165404551223330269422781018352604781765930977662335039368917183431798342796313417955/31082702275611665134711390509176302506278509424834232340028998555822468563283335970816,
+    497323236409786642155382248146820839638873975053335458159085817036733219230787801999749/248661618204893321077691124073410420050228075398673858720231988446579748506266687766528,
+    7957171782556586274486115970349133439760969709781514441921910990864846840859346857909715/3978585891278293137243057985174566720803649206378781739523711815145275976100267004264448,
+    31828687130226345097944463881396533764582864948054204879064181881736502697407397669374915/15914343565113172548972231940698266883214596825515126958094847260581103904401068017057792,
+    127314748520905380391777855525586135063870445901144966627633265445223126123800417968191295/63657374260452690195888927762793067532858387302060507832379389042324415617604272068231168,
+    254629497041810760783555711051172270130510384856754006810954799849584809914711351713347855/127314748520905380391777855525586135065716774604121015664758778084648831235208544136462336,
+    1018517988167243043134222844204689080524811032481480100799507468357477797325962198163261547/509258994083621521567111422102344540262867098416484062659035112338595324940834176545849344,
+    2037035976334486086268445688409378161051006811490192238376859071194524873485483576423071265/1018517988167243043134222844204689080525734196832968125318070224677190649881668353091698688,
+    2037035976334486086268445688409378161051352998122000247571320104814417193193873420474809127/1018517988167243043134222844204689080525734196832968125318070224677190649881668353091698688,
+    130370302485407109521180524058200202307292130865916943991675863246040977479742136611325993195/65185151242703554760590262029100101153646988597309960020356494379340201592426774597868716032,
+    260740604970814219042361048116400404614587031224888352056907414761041093517151392097634891333/130370302485407109521180524058200202307293977194619920040712988758680403184853549195737432064,
+    1042962419883256876169444192465601618458350894392607872301185347313123512626272687271650920377/521481209941628438084722096232800809229175908778479680162851955034721612739414196782949728256,
+    2085924839766513752338888384931203236916703173531742976639148538760726594531378933984623574539/1042962419883256876169444192465601618458351817556959360325703910069443225478828393565899456512,
+    33374797436264220037422214158899251790667256315493996554373487996709543789617397181520030184027/16687398718132110018711107079449625895333629080911349765211262561111091607661254297054391304192,
+    133499189745056880149688856635597007162669030800962095145641063363376093435584922963846365241575/66749594872528440074844428317798503581334516323645399060845050244444366430645017188217565216768,
+    266998379490113760299377713271194014325338064371417244755355682415021146009727513046575876675141/133499189745056880149688856635597007162669032647290798121690100488888732861290034376435130433536,
+    2135987035920910082395021706169552114602704520510324066970992570696707086354935438610373317754739/1067993517960455041197510853084776057301352261178326384973520803911109862890320275011481043468288]
+
+theorem pi_lt_136 : Real.pi < (273671317520631487452078175529438920524966 : ℝ) / 2 ^ 136 := by
+  pi_upper_bound [
+
+    2116480447430499751252734943246140439044282927519631/1496577676626844588240573268701473812127674924007424,
+    22122519747981389798349216427317928354031525864951267/11972621413014756705924586149611790497021399392059392,
+    5871285424862699654769904909034864168927884949197903/2993155353253689176481146537402947624255349848014848,
+    381279038990745034251488042279384912704640621343531401/191561942608236107294793378393788647952342390272950272,
+    1530649582871537874073517095695246051796917791862087407/766247770432944429179173513575154591809369561091801088,
+    3064067963721659302159267125229786076991946282668175285/1532495540865888858358347027150309183618739122183602176,
+    24518082348322279438361250363662432756257151002197919911/12259964326927110866866776217202473468949912977468817408,
+    49038934146253345566912998646247252795359811689929122343/24519928653854221733733552434404946937899825954937634816,
+    392317012134412768115779922509621497286269493426488873901/196159429230833773869868419475239575503198607639501078528,
+    196159198439791158012671745006820282458176048354993120241/98079714615416886934934209737619787751599303819750539264,
+    1569274972264517075022485708954737119290786751223806741701/784637716923335095479473677900958302012794430558004314112,
+    25108405095218042707370250989717278757913389677844776809491/12554203470773361527671578846415332832204710888928069025792,
+    100433625919858194902342647050651808208991073122234852681007/50216813883093446110686315385661331328818843555712276103168,
+    200867254609209433661848125305470541945079057301749050240817/100433627766186892221372630771322662657637687111424552206336,
+    1606938042412661572919476746459687770470400779215841134798709/803469022129495137770981046170581301261101496891396417650688,
+    6427752175189632399280190255055225162457524906624641972444239/3213876088517980551083924184682325205044405987565585670602752,
+    25711008706297515705717442171037428220125093404055497713814837/12855504354071922204335696738729300820177623950262342682411008,
+    12855504353841131116464381163173124820312138558338227369136649/6427752177035961102167848369364650410088811975131171341205504,
+    205688069664227590917883813855190570503057575094555394718836289/102844034832575377634685573909834406561420991602098741459288064,
+    1645504557319359713451993478797267249270757597332628642475716827/822752278660603021077484591278675252491367932816789931674304512,
+    6582018229282977839916900767511537071528222317537237234918983843/3291009114642412084309938365114701009965471731267159726697218048,
+    26328072917137450345776530893460297708143826953861429989561284477/13164036458569648337239753460458804039861886925068638906788872192,
+    52656145834277670184607525820014130295760279157223513107103683051/26328072917139296674479506920917608079723773850137277813577744384,
+    210624583337113450231484567343496671104628589617068695779762374749/105312291668557186697918027683670432318895095400549111254310977536,
+    1684996666696913140837985466890026976201261156611831208937250249847/842498333348457493583344221469363458551160763204392890034487820288,
+    1684996666696914525584512698926488709762385360977922319375643856233/842498333348457493583344221469363458551160763204392890034487820288,
+    26959946667150637948338312110970614622162728687831164108405938912695/13479973333575319897333507543509815336818572211270286240551805124608,
+    53919893334301278666169678686014745418772747093603061156117406062695/26959946667150639794667015087019630673637144422540572481103610249216,
+    107839786668602558717085884604066263742452265078907821340667522816105/53919893334301279589334030174039261347274288845081144962207220498432,
+    862718293348820472506180131296603663158273225431031668358941387554829/431359146674410236714672241392314090778194310760649159697657763987456,
+    6901746346790563785588427159300976415407916794555974396089269628607707/3450873173395281893717377931138512726225554486085193277581262111899648,
+    27606985387162255147892694746132052772699503364708664347322586586272605/13803492693581127574869511724554050904902217944340773110325048447598592,
+    55213970774324510298554882546728179101048687972081842790354527636242169/27606985387162255149739023449108101809804435888681546220650096895197184,
+    220855883097298041196989023241376789959873373918347417935684623192785715/110427941548649020598956093796432407239217743554726184882600387580788736,
+    55213970774324510299420349126248202087198709556265537605415270419988339/27606985387162255149739023449108101809804435888681546220650096895197184,
+    1766847064778384329582835918567174503568202538813531528741446486568907055/883423532389192164791648750371459257913741948437809479060803100646309888,
+    3533694129556768659166364210397965025525327107183530827716497504252832899/1766847064778384329583297500742918515827483896875618958121606201292619776,
+    113078212145816597093329193718843808963921843892424629863895807614127065739/56539106072908298546665520023773392506479484700019806659891398441363832832,
+    452312848583266388373322313861484164002798752088775138136325880741824710673/226156424291633194186662080095093570025917938800079226639565593765455331328,
+    1809251394333065553493294794432045584158306384888308415051989863954435359665/904625697166532776746648320380374280103671755200316906558262375061821325312,
+    1809251394333065553493296179178572816195084229022493583417782929870083244183/904625697166532776746648320380374280103671755200316906558262375061821325312,
+    28948022309329048855892744405843273987268459040897521210886820622252787200515/14474011154664524427946373126085988481658748083205070504932198000989141204992,
+    28948022309329048855892745790589801219305236885031982380108589150877455008635/14474011154664524427946373126085988481658748083205070504932198000989141204992,
+    231584178474632390847141969094211464218515450768524808979397847810539877677683/115792089237316195423570985008687907853269984665640564039457584007913129639936,
+    463168356949264781694283939573169455669067679381184096378070962616123736908713/231584178474632390847141970017375815706539969331281128078915168015826259279872,
+    7410693711188236507108543038709697399633229981475483459176247169531439579501843/3705346855594118253554271520278013051304639509300498049262642688253220148477952,
+    14821387422376473014217086080188887853730533518639235877347301560361269536328535/7410693711188236507108543040556026102609279018600996098525285376506440296955904,
+    29642774844752946028434172161762522234693103815122606234245913148554441821674949/14821387422376473014217086081112052205218558037201992197050570753012880593911808,
+    474284397516047136454946754593739341864017808153338237666193756905381387703226157/237142198758023568227473377297792835283496928595231875152809132048206089502588928,
+    1897137590064188545819787018380496353564999379724729488583047650754331546259420467/948568795032094272909893509191171341133987714380927500611236528192824358010355712,
+    1897137590064188545819787018381881100092231416502573623062616648825301524926679981/948568795032094272909893509191171341133987714380927500611236528192824358010355712,
+    7588550360256754183279148073528909146896157702788138626730035803944118198325387077/3794275180128377091639574036764685364535950857523710002444946112771297432041422848,
+    30354201441027016733116592294117021334111862847930398641399712477062370421908067371/15177100720513508366558296147058741458143803430094840009779784451085189728165691392,
+    242833611528216133864932738352938940165949366856998877400156838365392251397471503049/121416805764108066932466369176469931665150427440758720078238275608681517825325531136,
+    1942668892225729070919461906823517060313703863003102395739172984034085333606682915531/971334446112864535459730953411759453321203419526069760625906204869452142602604249088,
+    7770675568902916283677847627294073780240924380159520959494610213250578843449266794009/3885337784451458141838923813647037813284813678104279042503624819477808570410416996352,
+    7770675568902916283677847627294075164987451612196298803629089782529343857367127092027/3885337784451458141838923813647037813284813678104279042503624819477808570410416996352,
+    3885337784451458141838923813647037755587041710102746632331354837424523981568990661861/1942668892225729070919461906823518906642406839052139521251812409738904285205208498176,
+    497323236409786642155382248146820838254127447821298680314951337467454386742330029054093/248661618204893321077691124073410420050228075398673858720231988446579748506266687766528,
+    248661618204893321077691124073410419819436987526667729079542908518366609615388841213681/124330809102446660538845562036705210025114037699336929360115994223289874253133343883264,
+    3978585891278293137243057985174566719880484854890757220960955495432423420429653189810083/1989292945639146568621528992587283360401824603189390869761855907572637988050133502132224,
+    31828687130226345097944463881396533764582864948054204879064181881736502697407357191085365/15914343565113172548972231940698266883214596825515126958094847260581103904401068017057792,
+    7957171782556586274486115970349133441491902868821560414227079090326445382737523593118859/3978585891278293137243057985174566720803649206378781739523711815145275976100267004264448,
+    254629497041810760783555711051172270130510384856754006810954799849584809914711331474203079/127314748520905380391777855525586135065716774604121015664758778084648831235208544136462336,
+    2037035976334486086268445688409378161049622064962960201599014936714955594651924355848233541/1018517988167243043134222844204689080525734196832968125318070224677190649881668353091698688,
+    4074071952668972172536891376818756322102013622980384476753718142389049746970967132606997753/2037035976334486086268445688409378161051468393665936250636140449354381299763336706183397376,
+    32592575621351777380295131014550050576821647969952003961141121677030675091101974687118656477/16296287810675888690147565507275025288411747149327490005089123594835050398106693649467179008,
+    130370302485407109521180524058200202307292130865916943991675863246040977479742136570847703639/65185151242703554760590262029100101153646988597309960020356494379340201592426774597868716032,
+    521481209941628438084722096232800809229174062449776704113814829522082187034302784154791493109/260740604970814219042361048116400404614587954389239840081425977517360806369707098391474864128,
+    521481209941628438084722096232800809229175447196303936150592673656561756313136343625705887799/260740604970814219042361048116400404614587954389239840081425977517360806369707098391474864128,
+    8343699359066055009355553539724812947666812694126971906556594155042906378125515735898016008597/4171849679533027504677776769862406473833407270227837441302815640277772901915313574263597826048,
+    33374797436264220037422214158899251790667256315493996554373487996709543789617397181479551894467/16687398718132110018711107079449625895333629080911349765211262561111091607661254297054391304192,
+    66749594872528440074844428317798503581334515400481047572820531681688046717792461481902943476007/33374797436264220037422214158899251790667258161822699530422525122222183215322508594108782608384,
+    33374797436264220037422214158899251790667258046427155594419460301877643251215939130819454691295/16687398718132110018711107079449625895333629080911349765211262561111091607661254297054391304192,
+    266998379490113760299377713271194014325338065063790508371374071337088385794366929826291604933147/133499189745056880149688856635597007162669032647290798121690100488888732861290034376435130433536]
+
+def piLo : ℚ := 273671317520631487452078175529438920524963 / 2 ^ 136
+def piHi : ℚ := 273671317520631487452078175529438920524966 / 2 ^ 136
+
+theorem pi_encl : Encl Real.pi piLo piHi := by
+  unfold Encl piLo piHi; push_cast
+  exact ⟨pi_gt_136.le, pi_lt_136.le⟩
+
+theorem piLo_pos : 0 < piLo := by decide +kernel
+
+/-- square roots of enclosures: any rationals `s`, `t` with `s² ≤ a` and `b ≤ t²` enclose `√x` -/
+theorem Encl.sqrt {x : ℝ} {a b : ℚ} (hx : Encl x a b) (s t : ℚ) (hs : 0 ≤ s) (hs2 : s ^ 2 ≤ a)
+    (ht : 0 ≤ t) (ht2 : b ≤ t ^ 2) : Encl (√x) s t := by
+  have hs' : (0 : ℝ) ≤ (s : ℝ) := by exact_mod_cast hs
+  have ht' : (0 : ℝ) ≤ (t : ℝ) := by exact_mod_cast ht
+  have hs2' : (s : ℝ) ^ 2 ≤ (a : ℝ) := by exact_mod_cast hs2
+  have ht2' : (b : ℝ) ≤ (t : ℝ) ^ 2 := by exact_mod_cast ht2
+  constructor
+  · exact Real.le_sqrt_of_sq_le (le_trans hs2' hx.1)
+  · rw [Real.sqrt_le_left ht']; exact le_trans hx.2 ht2'
+
+def sqrtPiLo : ℚ := 2470440106574893720504763246394163958382132 / 2 ^ 140
+def sqrtPiHi : ℚ := 2470440106574893720504763246394163958382146 / 2 ^ 140
+
+theorem sqrt_pi_encl : Encl (√Real.pi) sqrtPiLo sqrtPiHi :=
+  pi_encl.sqrt sqrtPiLo sqrtPiHi (by decide +kernel) (by decide +kernel) (by decide +kernel) (by decide +kernel)
+
+theorem sqrtPiLo_pos : 0 < sqrtPiLo := by decide +kernel
+
+theorem Encl.smul_div {x : ℝ} {a b : ℚ} (hx : Encl x a b) (p q : ℕ) (hq : 0 < q) :
+    Encl ((p : ℝ) * x / (q : ℝ)) ((p : ℚ) / (q : ℚ) * a) ((p : ℚ) / (q : ℚ) * b) := by
+  have h := hx.smul ((p : ℚ) / (q : ℚ)) (by positivity)
+  refine h.congr ?_
+  push_cast; ring
+
+/-- `k·π/m` -/
+theorem pi_mul_div_encl (p q : ℕ) (hq : 0 < q) :
+    Encl ((p : ℝ) * Real.pi / (q : ℝ)) ((p : ℚ) / (q : ℚ) * piLo) ((p : ℚ) / (q : ℚ) * piHi) :=
+  pi_encl.smul_div p q hq
+
+theorem tau_encl : Encl (2 * Real.pi) ((2 : ℕ) / (1 : ℕ) * piLo) ((2 : ℕ) / (1 : ℕ) * piHi) :=
+  (pi_mul_div_encl 2 1 Nat.one_pos).congr (by push_cast; ring)
+theorem pi_div_2_encl : Encl (Real.pi / 2) ((1 : ℕ) / (2 : ℕ) * piLo) ((1 : ℕ) / (2 : ℕ) * piHi) :=
+  (pi_mul_div_encl 1 2 (by norm_num)).congr (by push_cast; ring)
+theorem pi_div_3_encl : Encl (Real.pi / 3) ((1 : ℕ) / (3 : ℕ) * piLo) ((1 : ℕ) / (3 : ℕ) * piHi) :=
+  (pi_mul_div_encl 1 3 (by norm_num)).congr (by push_cast; ring)
+theorem pi_div_4_encl : Encl (Real.pi / 4) ((1 : ℕ) / (4 : ℕ) * piLo) ((1 : ℕ) / (4 : ℕ) * piHi) :=
+  (pi_mul_div_encl 1 4 (by norm_num)).congr (by push_cast; ring)
+theorem pi_div_6_encl : Encl (Real.pi / 6) ((1 : ℕ) / (6 : ℕ) * piLo) ((1 : ℕ) / (6 : ℕ) * piHi) :=
+  (pi_mul_div_encl 1 6 (by norm_num)).congr (by push_cast; ring)
+theorem pi_div_8_encl : Encl (Real.pi / 8) ((1 : ℕ) / (8 : ℕ) * piLo) ((1 : ℕ) / (8 : ℕ) * piHi) :=
+  (pi_mul_div_encl 1 8 (by norm_num)).congr (by push_cast; ring)
+
+theorem one_div_pi_encl : Encl (1 / Real.pi) piHi⁻¹ piLo⁻¹ :=
+  (pi_encl.inv piLo_pos).congr (by rw [one_div])
+
+theorem two_div_pi_encl : Encl (2 / Real.pi) (2 * piHi⁻¹) (2 * piLo⁻¹) :=
+  ((pi_encl.inv piLo_pos).smul 2 (by norm_num)).congr (by push_cast; rw [div_eq_mul_inv])
+
+theorem two_div_sqrt_pi_encl : Encl (2 / √Real.pi) (2 * sqrtPiHi⁻¹) (2 * sqrtPiLo⁻¹) :=
+  ((sqrt_pi_encl.inv sqrtPiLo_pos).smul 2 (by norm_num)).congr (by push_cast; rw [div_eq_mul_inv])
 
 end ConstBounds
